@@ -603,6 +603,10 @@ pub fn run(args: &Args) -> i32 {
 
     // inputs: small contended ones (finish within a few polynomials) up to 100 bits; 2 and 3 prime factors
     let mut shapes: Vec<(&str, Vec<u32>)> = vec![
+        // tiny: a pool worker that starts at a distant polynomial block meets D^2 > n, one polynomial may be enough
+        ("b36", vec![18, 18]),
+        ("b40", vec![20, 20]),
+        ("b44", vec![22, 22]),
         ("b48", vec![24, 24]),
         ("b56", vec![28, 28]),
         ("b64", vec![31, 33]),
@@ -626,6 +630,8 @@ pub fn run(args: &Args) -> i32 {
     for (i, b) in extra_bits.iter().enumerate() {
         shapes.push((Box::leak(extra_names[i].clone().into_boxed_str()), vec![b / 2, b - b / 2]));
     }
+    // --maxbits B: only inputs of at most B bits (the pass in the checked build profile)
+    let maxbits = arg_u64(args, "maxbits", 10000) as u32;
     let sels_arg: Option<Vec<String>> = args.get("sels").map(|s| s.split(',').map(|x| x.to_string()).collect());
     let variants = [
         Variant { key: "def", use_double: None, large_factor: None, fb_size: None },
@@ -636,6 +642,9 @@ pub fn run(args: &Args) -> i32 {
         // stale-gap panic of SieveProto (MC_SieveProto_hazard.cfg); run with 2-3 threads under the ReadGap gate
         Variant { key: "fb1200", use_double: Some(false), large_factor: None, fb_size: Some(1200) },
     ];
+    // undersized factor base on tiny inputs: one polynomial is no longer enough, the workers have to keep going
+    // while others find their part of the polynomial supply exhausted
+    let smallfb = Variant { key: "smallfb", use_double: None, large_factor: None, fb_size: Some(24) };
     // --fbs a,b,c: additional oversized factor bases (attempts to reach gap = 0 with len <= fb, the
     // precondition of the stale-gap panic of the model)
     let extra_fbs: Vec<u32> = args.get("fbs").map(|s| s.split(',').filter_map(|x| x.parse().ok()).collect()).unwrap_or_default();
@@ -704,6 +713,9 @@ pub fn run(args: &Args) -> i32 {
                 continue;
             }
         }
+        if inp.n.bits() > maxbits {
+            continue;
+        }
         let mut prng = StdRng::seed_from_u64(plan_seed);
         out.ev(input_event(&inp));
         let mut runno = 0;
@@ -727,6 +739,10 @@ pub fn run(args: &Args) -> i32 {
             };
             if sel == "Qs" && inp.n.bits() > 80 {
                 continue;
+            }
+            let mut vars = vars;
+            if (sel == "Mpqs" || sel == "Siqs") && inp.n.bits() <= 48 {
+                vars.push(&smallfb);
             }
             for v in vars {
                 if v.key == "bigfb" && inp.n.bits() > 80 {
